@@ -103,7 +103,11 @@ type Session struct {
 	FailShort  bool   // a failing write first writes half of its data
 	PanicAt    int    // -1: never; k: the goroutine performing step k dies there (after half of the data for a write)
 	PanicMode  string // "panic" (panic(Died{})) or "goexit" (runtime.Goexit)
-	WriteSplit int    // >1: a Write of at least that many bytes is performed as WriteSplit consecutive write steps
+	// Hook, if set, is called before every step is performed (idx = index the step will get). The
+	// harness uses it for environment events between two steps and for per-step checks. Not used
+	// together with RunThreads.
+	Hook       func(idx int, op string)
+	WriteSplit int // >1: a Write of at least that many bytes is performed as WriteSplit consecutive write steps
 	Crashed    bool
 	nextFile   int
 
@@ -181,6 +185,12 @@ func errText(err error) string {
 			return "ENOSPC"
 		case syscall.EIO:
 			return "EIO"
+		case syscall.EACCES:
+			return "EACCES"
+		case syscall.EINTR:
+			return "EINTR"
+		case syscall.ENOTEMPTY:
+			return "ENOTEMPTY"
 		}
 		return "errno=" + strconv.Itoa(int(en))
 	}
@@ -211,6 +221,12 @@ func (s *Session) bind(idx int, f *File) {
 func (s *Session) doIdx(op, path, path2 string, n, file int, mut bool, perform func() (int, error), short func()) (int, int, error) {
 	if s.sch != nil && s.PointOps[op] {
 		s.sch.point()
+	}
+	if s.Hook != nil {
+		s.mu.Lock()
+		n := len(s.Log)
+		s.mu.Unlock()
+		s.Hook(n, op)
 	}
 	s.mu.Lock()
 	idx := len(s.Log)
